@@ -222,3 +222,82 @@ pub open spec fn update_a_spec<CS: BbsCiphersuite>(sig: BBSplusSignature, sk: Sc
     let new_s = msg_scalar_spec::<CS>(new_msg, CS::API_ID@);
     g1_mul(g1_add(g1_add(g1_mul(sig.A, sk_e), g1_mul(g1_neg(h_i), old_s)), g1_mul(h_i, new_s)), s_inv(sk_e))
 }
+
+// ---- proofs (3.6.3 CoreProofGen, 3.6.4 CoreProofVerify, 3.7.x ProofInit/Finalize/VerifyInit/Challenge) ---
+/// base + sum_{t < n} H[idx[t]] * m[t]   (m is parallel to idx), left fold in index order
+pub open spec fn fold_idx(base: G1Projective, h: Seq<G1Projective>, m: Seq<Scalar>, idx: Seq<usize>, n: int) -> G1Projective
+    decreases n,
+{
+    if n <= 0 { base } else { g1_add(fold_idx(base, h, m, idx, n - 1), g1_mul(h[idx[n - 1] as int], m[n - 1])) }
+}
+
+/// (i_1, msg_i1, ..., i_R, msg_iR) serialised: I2OSP(i, 8) || scalar
+pub open spec fn disclosed_octets(idx: Seq<usize>, m: Seq<Scalar>, n: int) -> Seq<u8>
+    decreases n,
+{
+    if n <= 0 { Seq::empty() } else { disclosed_octets(idx, m, n - 1) + i2osp_spec(idx[n - 1] as nat, 8) + sc_enc(m[n - 1]) }
+}
+
+/// c_arr = (R, i1, msg_i1, .., Abar, Bbar, D, T1, T2, domain);  c_octs = serialize(c_arr) || I2OSP(len(ph), 8) || ph
+pub open spec fn challenge_input(idx: Seq<usize>, m: Seq<Scalar>, abar: G1Projective, bbar: G1Projective, d: G1Projective,
+    t1: G1Projective, t2: G1Projective, domain: Scalar, ph: Seq<u8>) -> Seq<u8> {
+    i2osp_spec(idx.len(), 8) + disclosed_octets(idx, m, idx.len() as int)
+        + g1_enc(abar) + g1_enc(bbar) + g1_enc(d) + g1_enc(t1) + g1_enc(t2) + sc_enc(domain)
+        + i2osp_spec(ph.len(), 8) + ph
+}
+
+pub open spec fn challenge_spec<CS: BbsCiphersuite>(idx: Seq<usize>, m: Seq<Scalar>, abar: G1Projective, bbar: G1Projective, d: G1Projective,
+    t1: G1Projective, t2: G1Projective, domain: Scalar, ph: Seq<u8>, api_id: Seq<u8>) -> Scalar {
+    h2s_spec::<CS>(challenge_input(idx, m, abar, bbar, d, t1, t2, domain, ph), api_id + CS::H2S@)
+}
+
+// ProofInit
+pub open spec fn pi_d(b: G1Projective, r2: Scalar) -> G1Projective { g1_mul(b, r2) }
+pub open spec fn pi_abar(a: G1Projective, r1: Scalar, r2: Scalar) -> G1Projective { g1_mul(a, s_mul(r1, r2)) }
+pub open spec fn pi_bbar(d: G1Projective, r1: Scalar, abar: G1Projective, e: Scalar) -> G1Projective {
+    g1_sub(g1_mul(d, r1), g1_mul(abar, e))
+}
+pub open spec fn pi_t1(abar: G1Projective, e_tilde: Scalar, d: G1Projective, r1_tilde: Scalar) -> G1Projective {
+    g1_add(g1_mul(abar, e_tilde), g1_mul(d, r1_tilde))
+}
+pub open spec fn pi_t2(d: G1Projective, r3_tilde: Scalar, h: Seq<G1Projective>, m_tilde: Seq<Scalar>, und: Seq<usize>) -> G1Projective {
+    fold_idx(g1_mul(d, r3_tilde), h, m_tilde, und, und.len() as int)
+}
+
+// ProofVerifyInit
+pub open spec fn pv_t1(p: BBSplusPoKSignature) -> G1Projective {
+    g1_add(g1_add(g1_mul(p.Bbar, p.challenge), g1_mul(p.Abar, p.e_cap)), g1_mul(p.D, p.r1_cap))
+}
+pub open spec fn pv_bv(p1: G1Projective, q1: G1Projective, domain: Scalar, h: Seq<G1Projective>, dm: Seq<Scalar>, di: Seq<usize>) -> G1Projective {
+    fold_idx(g1_add(p1, g1_mul(q1, domain)), h, dm, di, di.len() as int)
+}
+pub open spec fn pv_t2(p: BBSplusPoKSignature, bv: G1Projective, h: Seq<G1Projective>, und: Seq<usize>) -> G1Projective {
+    fold_idx(g1_add(g1_mul(bv, p.challenge), g1_mul(p.D, p.r3_cap)), h, p.m_cap@, und, p.m_cap@.len() as int)
+}
+
+/// the complete CoreProofVerify predicate (including octets_to_proof's non-identity conditions)
+pub open spec fn proof_verify_spec<CS: BbsCiphersuite>(pk: G2Projective, p: BBSplusPoKSignature, p1: G1Projective, gens: Seq<G1Projective>,
+    header: Seq<u8>, ph: Seq<u8>, dm: Seq<Scalar>, di: Seq<usize>, api_id: Seq<u8>) -> bool {
+    let u = p.m_cap@.len() as int;
+    let r = di.len() as int;
+    let l = u + r;
+    let h = gens.subrange(1, gens.len() as int);
+    let domain = domain_spec::<CS>(pk, gens[0], h, header, api_id);
+    let und = complement(l, di);
+    let bv = pv_bv(p1, gens[0], domain, h, dm, di);
+    &&& forall|i: int| 0 <= i < r ==> di[i] < l
+    &&& dm.len() == r
+    &&& gens.len() == l + 1
+    &&& (api_id + CS::H2S@).len() <= 255
+    &&& p.Abar != g1_zero() && p.Bbar != g1_zero() && p.D != g1_zero()
+    &&& p.challenge == challenge_spec::<CS>(di, dm, p.Abar, p.Bbar, p.D, pv_t1(p), pv_t2(p, bv, h, und), domain, ph, api_id)
+    &&& gt_mul(pair(p.Abar, pk), pair(p.Bbar, g2_neg(g2_gen()))) == gt_one()
+}
+
+/// the validation part of ProofVerifyInit (everything that makes it return an error)
+pub open spec fn pvi_ok<CS: BbsCiphersuite>(u: int, gens_len: int, dm: Seq<Scalar>, di: Seq<usize>, api_id: Seq<u8>) -> bool {
+    &&& forall|i: int| 0 <= i < di.len() ==> di[i] < u + di.len()
+    &&& dm.len() == di.len()
+    &&& gens_len == u + di.len() + 1
+    &&& (api_id + CS::H2S@).len() <= 255
+}
